@@ -187,9 +187,6 @@ class C14(Check):
                   suppress_health_check=list(HealthCheck), report_multiple_bugs=False)
         @given(st.data())
         def prop(data):
-            if runner.time_left() < 0:
-                res.truncated = True
-                return
             parsed = data.draw(st.integers(0, 3)) == 0
             a = data.draw(trees.spec_strategy(parseable=parsed))
             how = data.draw(st.sampled_from(['copy', 'copy', 'perturb', 'perturb', 'swapcls', 'independent']))
@@ -204,6 +201,8 @@ class C14(Check):
                 b = data.draw(trees.spec_strategy(max_leaves=6))
             c = b if data.draw(st.booleans()) else data.draw(trees.spec_strategy(max_leaves=5))
             case = {'a': a, 'b': b, 'c': c, 'parsed': parsed, 'revdict': revdict}
+            if runner.over_budget(res):
+                return
             res.evals += 1
             res.hist['pair_' + how] += 1
             res.hist['parsed' if parsed else 'constructed'] += 1
@@ -219,7 +218,10 @@ class C14(Check):
                     res.sample({'a': repr(oa)[:300], 'pair': how, 'parsed': parsed})
             if bad is not None:
                 res.mismatch(case)
-        prop()
+        try:
+            prop()
+        except runner.StopTask:
+            pass
         return res
 
     def replay(self, case):
